@@ -72,7 +72,14 @@ def step (s : Unit) (ws : List String) : Unit × String :=
   | ["reset"] => (s, "ok")
   | _ => match parseReq ws with
     | none => (s, "bad-op")
-    | some r => match authorize r.env r.fn r.argc r.args r.acl with
+    | some r =>
+      if r.route = "legacy" then
+        -- CheckSign called by the method itself: args = plain arguments ++ keys ++ signatures
+        match checkSign r.env r.fn (r.args.take (r.argc - 1)) (r.args.drop (r.argc - 1)) r.acl with
+        | .ok a => (s, "ok " ++ a)
+        | .error e => (s, "err " ++ errName e ++ " clean")
+      else
+      match authorize r.env r.fn r.argc r.args r.acl with
       | .ok (a, _, nonce) =>
         -- batched and task execution then run checkNonce: 13-digit values only
         let n := nonce.toNat?.getD 0
@@ -82,8 +89,22 @@ def step (s : Unit) (ws : List String) : Unit × String :=
 
 def machine : Machine := ⟨Unit, (), step⟩
 
+/-- spec for the legacy helper: the ACL maps the key list to `a` and every listed key (at least one)
+    carries a genuine ed25519 signature over the function name, the arguments and the keys -/
+def entitledLegacy (r : Req) (a : String) : Bool :=
+  let auth := r.args.drop (r.argc - 1)
+  let n := auth.length / 2
+  let keys := auth.take n
+  let sigs := (auth.drop n).take n
+  let msg := r.fn ++ String.join (r.args.take (r.argc - 1) ++ keys)
+  match r.acl with
+  | .ok addr _ _ _ _ _ =>
+    addr = a && decide (1 ≤ n) && (keys.zip sigs).all (fun ks => r.env.sigOf ks.2 == SigV.valid .ed ks.1 msg)
+  | _ => false
+
 /-- spec: is the request entitled to act as `a`? -/
 def entitled (r : Req) (a : String) : Bool :=
+  if r.route = "legacy" then entitledLegacy r a else
   match parse r.argc r.args, r.acl with
   | .ok p, .ok addr kts n ha b g =>
     addr = a && !(ha && (b || g)) &&
